@@ -15,6 +15,9 @@ from inspect import Parameter, isclass, isfunction, isgeneratorfunction
 from io import BufferedIOBase, IOBase, RawIOBase, TextIOBase
 from traceback import extract_stack, print_stack
 from types import CodeType, FunctionType
+
+if sys.version_info >= (3, 10):
+    from types import UnionType as _UnionType
 from typing import (
     IO, TYPE_CHECKING, AbstractSet, Any, AsyncIterable, AsyncIterator, BinaryIO, Callable, Dict,
     Generator, Iterable, Iterator, List, NewType, Optional, Sequence, Set, TextIO, Tuple, Type,
@@ -751,6 +754,10 @@ def check_type(argname: str, value, expected_type, memo: Optional[_TypeCheckMemo
         memo = _TypeCheckMemo(globals, locals)
 
     expected_type = resolve_forwardref(expected_type, memo)
+    if sys.version_info >= (3, 10) and isinstance(expected_type, _UnionType):
+        # PEP 604 unions `X | Y` have no `__origin__` (and are not classes), so they used to fall through every branch
+        # below and accept any value. Treat them exactly like `typing.Union[X, Y]`.
+        expected_type = Union[expected_type.__args__]
     origin_type = getattr(expected_type, '__origin__', None)
     if origin_type is not None:
         checker_func = origin_type_checkers.get(origin_type)
